@@ -496,7 +496,7 @@ def rejected_position_stream(ctx, plans, table, n):
         if ctx.rng.chance(1, 2):
             pl.simple('new')
         pl.pos(root, moves[:k], idx)
-        bad = ctx.rng.pick(['a1a1', 'e2e5', 'h7h1', 'b8b1q', 'zzzz'])
+        bad = ctx.rng.pick(['a1a1', 'h4h4', 'b8b1q', 'e1e8n', 'zzzz'])      # illegal in EVERY position (null move, promotion across the board, not a move)
         variant = ctx.rng.below(3)
         if variant == 0:      # rejected at the first move
             Plan_badpos(pl, root, [bad])
